@@ -2844,8 +2844,16 @@ def rule_mapcollect(toks, fired):
                 a = _postfix_start(toks, d_it)
                 n += 1
                 on = f"mc_out{n}"
-                new = (synth(f"{{ let mut {on} = Vec::new(); ") + [_for_tok()] + synth(" ") + pat + synth(" in ") + _strip_ws(toks[a:mc[0]])
-                       + synth(f" {{ {on}.push(") + body + synth(f"); }} {on} }}"))
+                recv = _strip_ws(toks[a:d_it])
+                if len(recv) >= 2 and recv[0].kind == "ident" and recv[1].text == "(" and match_close(toks, toks.index(recv[1])) == toks.index(recv[-1]):
+                    # (added for unit chordal_compact2) X is a free-function call `f(args)` returning an owned value: bind it first, so that the
+                    # temporary lives as long as the loop (in the original it lives to the end of the enclosing statement; same evaluation order)
+                    sn = f"mc_src{n}"
+                    new = (synth(f"{{ let {sn} = ") + recv + synth(f"; let mut {on} = Vec::new(); ") + [_for_tok()] + synth(" ") + pat + synth(f" in {sn}.iter()")
+                           + synth(f" {{ {on}.push(") + body + synth(f"); }} {on} }}"))
+                else:
+                    new = (synth(f"{{ let mut {on} = Vec::new(); ") + [_for_tok()] + synth(" ") + pat + synth(" in ") + _strip_ws(toks[a:mc[0]])
+                           + synth(f" {{ {on}.push(") + body + synth(f"); }} {on} }}"))
                 toks = toks[:a] + new + toks[match_close(toks, p3) + 1:]
                 fired["mapcollect"] = fired.get("mapcollect", 0) + 1
                 i = a + 1
@@ -3164,6 +3172,158 @@ RULES["posfirst"] = rule_posfirst
 RULE_ORDER[RULE_ORDER.index("R20"):RULE_ORDER.index("R20")] = ["sortlenrev", "posfirst"]
 
 
+# ---- rule added for unit composite2 (additive) ----
+def rule_mapidxf(toks, fired):
+    """mapidxf:  X.F[&K]  ->  (*X.F.at(&K))      (unit composite2: `self.type_counts[&tag]`)
+    The twin of `mapidx` for a map reached through a field path (mapidx only takes a bare identifier).  Indexing with a *reference* is
+    only defined for maps (`impl Index<&Q> for HashMap`, "Panics if the key is not present"); the stand-in's `at(&self, k) -> &V` carries the
+    panic condition as precondition; `a[b]` in value position is sugar for `*a.index(b)`."""
+    i = 0
+    while i < len(toks):
+        t = toks[i]
+        if t.kind == "punct" and t.text == "[" and not t.syn:
+            pv = prev_code(toks, i - 1)
+            nx = next_code(toks, i + 1)
+            if pv >= 0 and toks[pv].kind == "ident" and nx < len(toks) and toks[nx].text == "&":
+                ppv = prev_code(toks, pv - 1)
+                if ppv >= 0 and toks[ppv].text == ".":
+                    a = _postfix_start(toks, ppv)
+                    pe = match_close(toks, i)
+                    new = synth("(*") + toks[a:pv + 1] + synth(".at(") + toks[i + 1:pe] + synth("))")
+                    toks = toks[:a] + new + toks[pe + 1:]
+                    fired["mapidxf"] = fired.get("mapidxf", 0) + 1
+                    i = a + len(new)
+                    continue
+        i += 1
+    return toks
+
+
+RULES["mapidxf"] = rule_mapidxf
+RULE_ORDER[RULE_ORDER.index("R20"):RULE_ORDER.index("R20")] = ["mapidxf"]
+
+
+# ---- rule added for unit chordal_compact2 (additive) ----
+def rule_zipnext(toks, fired, names):
+    """zipnext:NAME|..  :  for (P1, P2) in zip(A, NAME) { B }   ->   for P1 in A.iter() { let P2 = NAME.next().unwrap(); B }
+    and `let NAME = ..` becomes `let mut NAME = ..`      (unit chordal_compact2: `zip(cones, row_ranges)` with the iterator OBJECT
+    `row_ranges = cones.rng_cones_iter()`; runs after R3, which has peeled an `.enumerate()` off).
+    NAME is a local iterator object (not a slice: R14 cannot index it), A a `&Vec` / slice.  Zip::next calls A's `next` first and NAME's
+    second and stops when either returns None; NAME is not used after the loop (it is moved into `zip`).  The synthesized `unwrap()` is a
+    proof obligation "NAME yields at least as many items as A": when it is discharged the two loops run the same bodies on the same
+    items in the same order (if NAME could run out first, the original would stop silently - the emitted text then does not verify)."""
+    i = 0
+    while i < len(toks):
+        t = toks[i]
+        if t.kind == "ident" and t.text == "for" and not t.syn:
+            p = next_code(toks, i + 1)
+            if toks[p].text == "(":
+                pe = match_close(toks, p)
+                inn = next_code(toks, pe + 1)
+                bo = _loop_body_open(toks, i)
+                ex = [k for k in range(inn + 1, bo) if toks[k].kind not in ("ws", "comment")]
+                if (toks[inn].text == "in" and len(ex) == 6 and toks[ex[0]].text == "zip" and toks[ex[1]].text == "(" and toks[ex[2]].kind == "ident"
+                        and toks[ex[3]].text == "," and toks[ex[4]].kind == "ident" and toks[ex[4]].text in names and toks[ex[5]].text == ")"):
+                    parts = split_top_commas(toks, p + 1, pe)
+                    if len(parts) != 2:
+                        raise ExtractError("zipnext: pattern is not a pair")
+                    (a0, b0), (a1, b1) = parts
+                    P1 = _strip_ws(toks[a0:b0]); P2 = _strip_ws(toks[a1:b1])
+                    A = toks[ex[2]].text; NAME = toks[ex[4]].text
+                    new = ([toks[i]] + synth(" ") + P1 + synth(f" in {A}.iter() ") + [toks[bo]] + synth(" let ") + P2 + synth(f" = {NAME}.next().unwrap();"))
+                    toks = toks[:i] + new + toks[bo + 1:]
+                    # the binding of NAME becomes mutable
+                    for k in range(i - 1, -1, -1):
+                        if toks[k].kind == "ident" and toks[k].text == NAME and not toks[k].syn:
+                            pv = prev_code(toks, k - 1)
+                            if pv >= 0 and toks[pv].kind == "ident" and toks[pv].text == "let":
+                                toks = toks[:k] + synth("mut ") + toks[k:]
+                                i += 1
+                                break
+                    fired["zipnext"] = fired.get("zipnext", 0) + 1
+                    i += len(new)
+                    continue
+        i += 1
+    return toks
+
+
+def rule_structinto(toks, fired):
+    """structinto:  NAME { fields }.into()  ->  NAME_into(NAME { fields })      (unit chordal_compact2: `SparseVector { .. }.into()`)
+    `Into::into` for a user type is the user's `From::from`; a Verus impl of std's `From` cannot carry the `requires` that the body's
+    indexing needs, so the unit declares a free function `<name>_into` (lower-cased type name) with the contract of that `from`
+    (its index obligations as precondition).  Fires only when the receiver is a struct literal."""
+    i = 0
+    while i < len(toks):
+        mc = _method_call_at(toks, i, "into")
+        if mc is not None and next_code(toks, mc[1] + 1) == mc[2]:
+            q = prev_code(toks, mc[0] - 1)
+            if q >= 0 and toks[q].text == "}":
+                depth, k = 0, q
+                while k >= 0:
+                    if toks[k].kind == "punct" and toks[k].text in CLOSE: depth += 1
+                    if toks[k].kind == "punct" and toks[k].text in OPEN:
+                        depth -= 1
+                        if depth == 0: break
+                    k -= 1
+                nm = prev_code(toks, k - 1)
+                if k >= 0 and nm >= 0 and toks[nm].kind == "ident" and toks[nm].text[:1].isupper():
+                    fn = {"SparseVector": "sparse_into"}.get(toks[nm].text, toks[nm].text.lower() + "_into")
+                    new = synth(fn + "(") + toks[nm:q + 1] + synth(")")
+                    toks = toks[:nm] + new + toks[mc[2] + 1:]
+                    fired["structinto"] = fired.get("structinto", 0) + 1
+                    i = nm + 1
+                    continue
+        i += 1
+    return toks
+
+
+RULES["structinto"] = rule_structinto
+RULE_ORDER[RULE_ORDER.index("R20"):RULE_ORDER.index("R20")] = ["structinto"]
+
+
+def rule_tupassignc(toks, fired):
+    """tupassignc (unit chordal_compact2):  (X1, .., Xk) = F(ARGS);   ->   let ta_tN = F(ARGS); X1 = ta_tN.0; .. Xk = ta_tN.(k-1);
+    Destructuring assignment from a CALL (Verus does not support it).  Rust evaluates the right-hand side completely (the arguments may
+    mention the Xi: they see the OLD values) and then assigns left to right - which is what the emitted text does.  Fires only when
+    every Xi is a plain identifier and the right-hand side is a single call `IDENT(..)`."""
+    n = 0
+    i = 0
+    while i < len(toks):
+        t = toks[i]
+        if t.kind == "punct" and t.text == "(" and not t.syn:
+            pv = prev_code(toks, i - 1)
+            if pv >= 0 and toks[pv].kind == "punct" and toks[pv].text in (";", "{", "}"):
+                pe = match_close(toks, i)
+                eq = next_code(toks, pe + 1)
+                f = next_code(toks, eq + 1) if eq < len(toks) else len(toks)
+                fp = next_code(toks, f + 1) if f < len(toks) else len(toks)
+                if eq < len(toks) and toks[eq].text == "=" and fp < len(toks) and toks[f].kind == "ident" and toks[fp].text == "(":
+                    fe = match_close(toks, fp)
+                    semi = next_code(toks, fe + 1)
+                    lhs = split_top_commas(toks, i + 1, pe)
+                    if semi < len(toks) and toks[semi].text == ";" and len(lhs) >= 2:
+                        names = []
+                        for (a, b) in lhs:
+                            code = [x for x in toks[a:b] if x.kind not in ("ws", "comment")]
+                            if len(code) != 1 or code[0].kind != "ident":
+                                raise ExtractError("tupassignc: left-hand side is not a tuple of plain identifiers")
+                            names.append(code[0].text)
+                        n += 1
+                        tn = f"ta_t{n}"
+                        out = synth(f"let {tn} = ") + toks[f:fe + 1] + synth("; ")
+                        for k, nm in enumerate(names):
+                            out += synth(f"{nm} = {tn}.{k}; ")
+                        toks = toks[:i] + out + toks[semi + 1:]
+                        fired["tupassignc"] = fired.get("tupassignc", 0) + 1
+                        i += len(out)
+                        continue
+        i += 1
+    return toks
+
+
+RULES["tupassignc"] = rule_tupassignc
+RULE_ORDER[RULE_ORDER.index("R20"):RULE_ORDER.index("R20")] = ["tupassignc"]
+
+
 def apply_rules(toks, rules, fired):
     for r in RULE_ORDER:
         if r in rules:
@@ -3201,6 +3361,8 @@ def apply_rules(toks, rules, fired):
             toks = rule_fnptr(toks, fired, [b for b in r[6:].split("|") if b])
         elif r.startswith("vecsort:"):
             toks = rule_vecsort(toks, fired, [b for b in r[8:].split("|") if b])
+        elif r.startswith("zipnext:"):
+            toks = rule_zipnext(toks, fired, [b for b in r[8:].split("|") if b])
         elif r not in RULES:
             raise ExtractError(f"unknown rule {r}")
     return toks
